@@ -76,11 +76,35 @@ def _case(draw, allow_requeue=True):
         ["RE", [{"target": ["v"], "reenter": True, "actions": []}]],
         ["SLOW", [{"target": None, "actions": [{"k": "user", "name": "slow"}]}]],
         ["PING", [{"target": None, "actions": []}]]]}
-    if d.chance(30):
+    backs = ["BACK"]
+    x_on = [["BACK", [{"target": ["v"], "actions": []}]], ["SLOW", [{"target": None, "actions": [{"k": "user", "name": "slow"}]}]]]
+    shape_v = d.pick(["atomic", "atomic", "compound", "compound", "parallel"])
+    if shape_v == "compound":
+        # the invoking state is entered through its own id, through a descendant target, or through
+        # its history child
         v["kind"] = "compound"
         v["initial"] = "v1"
-        v["children"] = [{"key": "v1", "kind": "atomic"}]
-    x = {"key": "x", "kind": "atomic", "on": [["BACK", [{"target": ["v"], "actions": []}]], ["SLOW", [{"target": None, "actions": [{"k": "user", "name": "slow"}]}]]]}
+        v["children"] = [{"key": "v1", "kind": "atomic", "on": [["IN", [{"target": ["v", "v2"], "actions": []}]]]},
+                         {"key": "v2", "kind": "atomic", "on": [["IN", [{"target": ["v", "v1"], "actions": []}]]]}]
+        x_on.append(["BACK2", [{"target": ["v", "v2"], "actions": []}]])
+        backs += ["BACK2", "BACK2"]
+        if d.chance(50):
+            v["children"].append({"key": "h", "kind": "history", "hist": d.pick(["shallow", "deep"])})
+            x_on.append(["BACKH", [{"target": ["v", "h"], "actions": []}]])
+            backs += ["BACKH"]
+    elif shape_v == "parallel":
+        # restoring history re-enters several leaves whose paths all run through the invoking state
+        v["kind"] = "parallel"
+        v["children"] = [
+            {"key": "r1", "kind": "compound", "initial": "a", "children": [
+                {"key": "a", "kind": "atomic", "on": [["IN", [{"target": ["v", "r1", "b"], "actions": []}]]]}, {"key": "b", "kind": "atomic"}]},
+            {"key": "r2", "kind": "compound", "initial": "c", "children": [
+                {"key": "c", "kind": "atomic", "on": [["IN", [{"target": ["v", "r2", "d"], "actions": []}]]]}, {"key": "d", "kind": "atomic"}]},
+            {"key": "h", "kind": "history", "hist": d.pick(["shallow", "deep", "deep"])}]
+        x_on.append(["BACKH", [{"target": ["v", "h"], "actions": []}]])
+        x_on.append(["BACK2", [{"target": ["v", "r2", "d"], "actions": []}]])
+        backs += ["BACKH", "BACKH", "BACK2"]
+    x = {"key": "x", "kind": "atomic", "on": x_on}
     dd = {"key": "d", "kind": "atomic", "on": [["BACK", [{"target": ["v"], "actions": []}]]]}
     ee = {"key": "e", "kind": "atomic", "on": [["BACK", [{"target": ["v"], "actions": []}]]]}
     start_in = d.pick(["v", "x"])
@@ -93,6 +117,10 @@ def _case(draw, allow_requeue=True):
     seq = [0]
 
     def send(t):
+        if t == "BACK":
+            t = d.pick(backs)
+        elif t == "PING" and shape_v != "atomic" and d.chance(50):
+            t = "IN"
         hist.append(["send", t, seq[0]])
         seq[0] += 1
 
